@@ -14,4 +14,4 @@ Extraction "model.ml"
   reader_for writer_for
   read_vtt write_vtt parse_text_vtt vtt_line_simple
   convert_srt_vtt convert_vtt_srt
-  ttml_time time_simple read_ttml doc_time_simple write_ttml format_ttml.
+  ttml_time time_simple read_ttml doc_time_simple write_ttml write_ttml_bytes indent_doc format_ttml.
